@@ -1864,7 +1864,12 @@ class Rule(metaclass=LogicalType):
             return value
 
         contains = 0
-        for i, item in enumerate(value):
+        try:
+            items = iter(value)
+        except TypeError:
+            # a rule without a source type given something that has no items
+            items = iter(())
+        for i, item in enumerate(items):
             with context.enter(route=i) as item_context:
                 try:
                     item_context.transformer(item, cls.contains)
